@@ -1,4 +1,6 @@
 import PikaVerif.Lemmas.X86
+import PikaVerif.Model.Rebind
+import PikaVerif.Lemmas.StackClass
 /-!
 # C12 — A task's context survives suspension, migration and recycling
 
@@ -224,5 +226,94 @@ theorem C12_fp_control_not_preserved :
       run3 := run3 }
   · exact (C12_swap_keeps_fp_control _ s3 t3 run3).1
   · exact (C12_swap_keeps_fp_control _ s3 t3 run3).2
+
+/-! ## Part (b): a recycled thread object starts clean
+
+`Gen/Rebind.lean` lists every data member of `thread_data` and of the coroutine (`context_base`,
+`coroutine_impl`) with the assignments made by the constructors, by `rebind_base` / `rebind`, and by
+the reset the trampoline loop performs before a terminated task returns to the scheduler.  The
+theorems are closed (`decide`) statements about these generated tables: adding a member that is not
+reset, dropping a reset, or resetting to a value different from the constructor's breaks them. -/
+open PikaVerif.Rebind PikaVerif.Gen.Rebind
+
+/-- Members of `thread_data` that are properties of the *object*, not of the task it currently
+    represents, and are deliberately kept across recycling:
+    `is_stackless_` (declared `const`), `stacksize_` (physical size of the attached stack — objects
+    are only reused for requests of the same size, `C12_heap_by_size`), `queue_` (the queue whose
+    heaps own the object). -/
+def tdImmutable : List String := ["is_stackless_", "stacksize_", "queue_"]
+
+set_option maxRecDepth 16384 in
+/-- **Every per-task member of `thread_data` is reset by `rebind_base`, to the constructor's value.**
+    (interruption request/enable flags, exit-callback list and its `ran` flag, state word, priority,
+    scheduler, last worker, stack-size class, description, parent reference, marked state, backtrace,
+    timer data — under whatever preprocessor configuration they exist.) -/
+theorem C12_rebind_resets_all :
+    ∀ m ∈ tdMembers, m.name ∈ tdImmutable ∨ sameAsFresh tdCtor tdRebind m = true := by decide
+
+/-- the members kept across recycling exist and the one declared `const` in the source is among them -/
+theorem C12_immutable_declared :
+    (∀ n ∈ tdImmutable, ∃ m ∈ tdMembers, m.name = n) ∧
+    (∀ m ∈ tdMembers, m.isConst = true → m.name ∈ tdImmutable) := by decide
+
+/-- Coroutine members that are not reset between tasks, with the reason:
+    `m_caller` is the *scheduler-side* saved stack pointer; every `do_invoke` stores it (the routine's
+    `movq %rsp, (%rdi)`) before anything reads it.
+    `continuation_recursion_count_` is not reset anywhere (constructor only).  In the pinned tree
+    nothing reads or writes it except through the accessor `get_continuation_recursion_count()`, which
+    has no caller; it is listed here so that the exemption is visible (see notes/C12.md). -/
+def coNotReset : List String := ["m_caller", "continuation_recursion_count_"]
+
+/-- **Every other coroutine member of a recycled object has, after the exit reset
+    (`reset_tss(); reset()`) followed by `rebind`, the value the constructors give it** — thread-local
+    data pointer / task data word null, phase 0, fresh id, fresh function, no stale result, no stale
+    exception, exit flags cleared. -/
+theorem C12_coroutine_resets_all :
+    ∀ m ∈ coMembers, m.name ∈ coNotReset ∨
+      (finalValue (coExit ++ coRebind) m).isSome = true ∧
+      finalValue (coExit ++ coRebind) m = finalValue coCtor m := by decide
+
+/-- what `context_base::rebind_base` *asserts* about the incoming object (task data / TSS pointer null,
+    phase 0) is exactly what the exit reset established -/
+theorem C12_rebind_assumptions_established :
+    ∀ a ∈ coRebindAsserts, ∀ m ∈ coMembers, m.name = a.name → guardCovers m.guard a.guard = true →
+      finalValue coExit m = some a.value := by decide
+
+/-! ## Part (c): a recycled object is only rebound to a task of the same physical stack size -/
+open PikaVerif.StackClass PikaVerif.Gen.Heaps
+
+/-- `thread_queue` (all schedulers except shared-priority) with configured sizes `P` -/
+def tqCfg (P : String → Nat) : Cfg := ⟨P, classParam, tqCreate, tqRecycle, tqPrefill⟩
+/-- `queue_holder_thread` (shared-priority scheduler) -/
+def qhCfg (P : String → Nat) : Cfg := ⟨P, classParam, qhCreate, qhRecycle, qhPrefill⟩
+
+/-- **Heap by size.**  For every configuration of the four stack sizes (equal sizes allowed), every
+    order of task creations, terminations (recycling) and the initial pre-allocation, and for both
+    queue implementations: whenever a recycled object is rebound to a new task, the stack it carries
+    was mapped with exactly the size configured for the new task's stack-size class. -/
+theorem C12_heap_by_size (P : String → Nat) (c : Cfg) (hc : c = tqCfg P ∨ c = qhCfg P) (log : List StackClass.Ev) (s : StackClass.St)
+    (h : runLog (step c) StackClass.init log = some s) :
+    ∀ x ∈ s.rebinds, x.1.size = x.2.2 ∧ ∃ p, classParam.lookup x.2.1 = some p ∧ x.2.2 = P p := by
+  have hcons : consistent c = true := by
+    rcases hc with rfl | rfl
+    · show consistent ⟨P, classParam, tqCreate, tqRecycle, tqPrefill⟩ = true; simp only [consistent]; decide
+    · show consistent ⟨P, classParam, qhCreate, qhRecycle, qhPrefill⟩ = true; simp only [consistent]; decide
+  have hi : Inv c s := inv_of_runLog (Inv c) (fun s e s' => step_inv c hcons s s' e) (inv_init c) h
+  have hP : c.P = P ∧ c.classParam = classParam := by rcases hc with rfl | rfl <;> exact ⟨rfl, rfl⟩
+  intro x hx
+  obtain ⟨h1, p, h2, h3⟩ := hi.bound x hx
+  exact ⟨h1, p, by rw [← hP.2]; exact h2, by rw [← hP.1]; exact h3⟩
+
+/-- non-vacuity: with small = medium = 64 KiB, a medium object is filed, then taken by a small task
+    (both classes share the first heap of the chain) — accepted, and the sizes agree -/
+example : ∃ s, runLog (step (tqCfg (fun p => if p = "large_stacksize_" then 131072 else 65536))) StackClass.init
+    [.recycle ⟨1, 65536⟩, .create "small_" (some ⟨1, 65536⟩)] = some s ∧ s.rebinds.length = 1 := by
+  refine ⟨_, rfl, rfl⟩
+
+/-- a queue whose `recycle_thread` filed medium stacks in the small heap would violate it: the
+    consistency condition the theorem rests on fails for such a table -/
+example : consistent ⟨fun _ => 0, classParam, tqCreate,
+    [("small_stacksize_", "thread_heap_small_"), ("medium_stacksize_", "thread_heap_small_")], []⟩ = false := by
+  decide
 
 end PikaVerif.C12
